@@ -45,6 +45,8 @@ package xgoprojs
 //@ func ParseAll
 //@   at entry set cut = store(cut, 0, 0)
 //@   at store projs#2 set cut = store(cut, len(projs), len(old(args)) - len(next))
+//@   at store projs#2 assert [newpart] partOK(proj, old(args), cut[len(projs)-1], cut[len(projs)])
+//@   at store projs#2 assert [oldparts] forall k in 0..len(projs)-1 :: partOK(projs[k], old(args), cut[k], cut[k+1])
 //@   ensures [mixed] err != nil ==> (exists i in 0..len(args) :: isFileS(args[i])) && (exists j in 0..len(args) :: !isFileS(args[j]))
 //@   ensures [notmixed] err == nil ==> (forall i in 0..len(args) :: isFileS(args[i])) || (forall j in 0..len(args) :: !isFileS(args[j]))
 //@   ensures [mixederr] err != nil ==> err == ErrMixedFilesProj && projs == nil
@@ -64,6 +66,7 @@ package xgoprojs
 //@   invariant [hasN] hasNotFiles ==> exists j in 0..cut[len(projs)] :: !isFileS(old(args)[j])
 //@   invariant [noN] !hasNotFiles ==> forall j in 0..cut[len(projs)] :: isFileS(old(args)[j])
 //@   invariant [errnil] err == nil
+//@   invariant [alloc] allocated(projs)
 //@   decreases len(args)
 //@
 //@ ginv errMixedNonNil := ErrMixedFilesProj != nil
